@@ -230,7 +230,9 @@ impl Report {
         let mut reported = 0usize;
         let mut known_hits = Vec::new();
         let mut viol_list = Vec::new();
-        let sigs: Vec<String> = self.acc.violations.keys().cloned().collect();
+        let mut sigs: Vec<String> = self.acc.violations.keys().cloned().collect();
+        // smallest cases first
+        sigs.sort_by_key(|s| (self.acc.violations[s].size, s.clone()));
         for sig in sigs {
             let v = self.acc.violations.get(&sig).unwrap().clone();
             if let Some(desc) = known.lookup(self.prop, &v.sig) {
